@@ -44,6 +44,10 @@ var classes = []*Class{
 	{ID: "any-ac", VarName: "any", Re: `[a-c]+`, Full: `[a-c]+`, Samples: []string{"a", "abc", "cab"}, Near: []string{"d", "ab1", "x.y"}},
 	{ID: "all-word", VarName: "all", Re: `\w+`, Full: `\w+`, Samples: []string{"a1", "_c", "abc"}, Near: []string{"a-b", "a/b", ""}},
 	{ID: "num-zero", VarName: "num", Re: `0\d*`, Full: `0\d*`, Samples: []string{"0", "007", "01"}, Near: []string{"1", "12", "a"}},
+	// variable names are case-sensitive: a name that differs from a global var only by case is a plain variable
+	{ID: "cap-all", VarName: "All", Full: `[^/]+`, Samples: []string{"1", "abc", "x.y"}, Near: []string{"", "a/b"}},
+	{ID: "cap-num", VarName: "NUM", Full: `[^/]+`, Samples: []string{"abc", "0", "x.y"}, Near: []string{""}},
+	{ID: "cap-slug", VarName: "Slug", Full: `[^/]+`, Samples: []string{"A", "x.y", "a_b"}, Near: []string{""}},
 	// a user-defined global var (SetGlobalVar is called once, before any router exists)
 	{ID: "gslug", VarName: "slug", Full: `[a-z0-9-]+`, Samples: []string{"a-b", "abc", "v1-0", "007"}, Near: []string{"A", "x.y", "a_b", ""}},
 }
